@@ -1,6 +1,7 @@
 mod cache;
 mod chan;
 mod compat;
+mod ent;
 mod replay;
 mod scen;
 mod sim;
@@ -38,6 +39,26 @@ fn main() {
                             &std::fs::read_to_string(arg(&args, "--ops").expect("--ops")).unwrap(),
                         )
                         .unwrap();
+                        replay::replay_ops(ops.as_array().unwrap(), &make)
+                    }
+                }
+                "Entities" => {
+                    let cfgc = cfg.clone();
+                    let make = || ent::EntModel::new(&cfgc);
+                    if args[1] == "replay" {
+                        replay::replay_graph(&arg(&args, "--edges").expect("--edges"), &make, maxdiv).json
+                    } else {
+                        let ops: Value = serde_json::from_str(&std::fs::read_to_string(arg(&args, "--ops").expect("--ops")).unwrap()).unwrap();
+                        replay::replay_ops(ops.as_array().unwrap(), &make)
+                    }
+                }
+                "FragSize" => {
+                    let cfgc = cfg.clone();
+                    let make = || chan::FragModel::new(&cfgc);
+                    if args[1] == "replay" {
+                        replay::replay_graph(&arg(&args, "--edges").expect("--edges"), &make, maxdiv).json
+                    } else {
+                        let ops: Value = serde_json::from_str(&std::fs::read_to_string(arg(&args, "--ops").expect("--ops")).unwrap()).unwrap();
                         replay::replay_ops(ops.as_array().unwrap(), &make)
                     }
                 }
